@@ -365,6 +365,11 @@ func (c *Constraint) matchesPermanodeTypes() []string {
 			}
 			return sb
 		case "or":
+			if len(sa) == 0 || len(sb) == 0 {
+				// One side isn't restricted to known node types, so
+				// neither is the disjunction.
+				return nil
+			}
 			return append(sa, sb...)
 		}
 	}
